@@ -53,7 +53,7 @@ def ops_for(hub, U, letters, rng, regime, tier):
             except Exception:
                 pass
     full = tuple(letters)
-    x = fd.FlodymArray(dims=gen.dimset(fd, U, full), values=gen.values_one(regime, rng, gen.shape_of(U, full)))
+    x = gen.Fresh(hub, fd.FlodymArray(dims=gen.dimset(fd, U, full), values=gen.values_one(regime, rng, gen.shape_of(U, full), layout=True)))
     k = len(full)
     # reductions
     for keep in [full[::-1], full[1:], (full[-1], full[0]), (full[1],), ()]:
@@ -67,7 +67,7 @@ def ops_for(hub, U, letters, rng, regime, tier):
             x.cumsum(l)
         except Exception:
             pass
-    sub = fd.FlodymArray(dims=gen.dimset(fd, U, full[1:][::-1]), values=gen.values_one(regime, rng, gen.shape_of(U, full[1:][::-1])))
+    sub = gen.Fresh(hub, fd.FlodymArray(dims=gen.dimset(fd, U, full[1:][::-1]), values=gen.values_one(regime, rng, gen.shape_of(U, full[1:][::-1]), layout=True)))
     for tgt in (full, full[::-1], full[1:] + full[:1]):
         try:
             sub.cast_to(gen.dimset(fd, U, tgt))
